@@ -84,6 +84,45 @@ impl Splitter {
     }
 }
 
+/// Normalisation controls (sa/inline.py, sa/df.py): a helper that works through a `&mut` to a local of the
+/// caller (after splicing, the write must be a write to that local), and a helper that reports
+/// `Option<bool>` which the caller matches on (the raw filesystem call must sit under
+/// `self.armed == true`, never on the `None` path).
+pub struct Tally {
+    pub armed: bool,
+    pub limit: bool,
+}
+
+impl Tally {
+    pub fn tally_caller(&mut self, xs: &[u64]) -> u64 {
+        let mut total = 0u64;
+        for x in xs {
+            Self::tally_bump(&mut total, *x);
+        }
+        total
+    }
+
+    fn tally_bump(acc: &mut u64, by: u64) {
+        *acc += by;
+    }
+
+    pub fn verdict_caller(&mut self, path: &str) -> std::io::Result<()> {
+        match self.verdict_helper() {
+            Some(true) => std::fs::remove_file(path)?,
+            Some(false) => {}
+            None => {}
+        }
+        Ok(())
+    }
+
+    fn verdict_helper(&mut self) -> Option<bool> {
+        if !self.armed {
+            return None;
+        }
+        Some(self.limit)
+    }
+}
+
 /// C06-P4: a received name rebuilt from its components (normalising).
 pub fn lossy_path(p: &std::path::Path) -> std::path::PathBuf {
     p.components().collect()
